@@ -291,3 +291,157 @@ Proof.
   split; [vm_compute; discriminate|]. split; [vm_compute; discriminate|]. vm_compute. reflexivity.
 Qed.
 End C11_Heap.
+
+(* ==================================================================================================
+   part/node.go child layouts (node4/16/48/256) at array level: Part/Layout.v, engine layout. *)
+(* C11_layout_snippet.v — ready to append to coq/theories/Properties/C11.v (engine `layout`).
+   The physical child layouts of part's node4/node16/node48/node256 (Part/Layout.v, mechanism
+   level: keys array with stale slots, node48 index, children slots) refine the byte-sorted child
+   list + kind tag that Part/Model.v works with. Append as is: the Require line below may stay in the
+   middle of Properties/C11.v (tested: C11.v ++ this file compiles, 40 x "Closed under the global context");
+   keeping it here avoids shadowing names used by the earlier statements. *)
+From SV Require Import Base.Bytes Part.Model Part.Layout Part.LayoutBase Part.LayoutKeyed Part.Layout48 Part.Layout256
+  Part.LayoutProofs Part.LayoutClauses Part.LayoutRoot Part.LayoutLink Part.LayoutRefuted.
+Close Scope N_scope.
+
+(* the well-formedness invariant determines size, sortedness, byte range, capacity and kind *)
+Theorem C11_layout_wf_abs : forall l, LWF l ->
+  good (l_abs l) /\ l_size l = length (l_abs l) /\ l_size l <= l_cap l /\
+  (l_kind l = 4 \/ l_kind l = 16 \/ l_kind l = 48 \/ l_kind l = 256)%N.
+Proof. exact LWF_abs. Qed.
+Print Assumptions C11_layout_wf_abs.
+
+(* the slot-wise reading of LWF (which LayoutProofs.v defines through canonical forms) *)
+Theorem C11_layout_wf_clauses : forall l, LWF l ->
+  let ks := l_abs l in
+  ssorted ks /\ Forall (fun k => (k < 256)%N) ks /\ l_size l = length ks /\ l_size l <= l_cap l /\
+  length (l_children l) = l_cap l /\
+  (l_kind l <> 256%N ->
+     (forall i, i < l_size l -> child_at (l_children l) i = Some (nth i ks 0%N)) /\
+     (forall i, l_size l <= i -> child_at (l_children l) i = None)) /\
+  (l_kind l = 4%N \/ l_kind l = 16%N ->
+     length (l_keys l) = l_cap l /\
+     (forall i, i < l_size l -> key_at (l_keys l) i = nth i ks 0%N) /\
+     exists m, forall i, l_size l <= i < l_cap l -> key_at (l_keys l) i = if i <? l_size l + m then 255%N else 0%N) /\
+  (l_kind l = 48%N ->
+     length (l_index l) = 256 /\
+     forall k i, (k < 256)%N ->
+       (nth (N.to_nat k) (l_index l) 0 = S i <-> i < l_size l /\ child_at (l_children l) i = Some k)) /\
+  (l_kind l = 256%N ->
+     forall k, (k < 256)%N -> child_at (l_children l) (N.to_nat k) = if memb k ks then Some k else None).
+Proof. exact LWF_clauses. Qed.
+Print Assumptions C11_layout_wf_clauses.
+
+(* the empty node4 and the node4s built by Txn.modify's prefix split (fresh arrays) are well-formed *)
+Theorem C11_layout_new_node4 : forall lf ks, good ks -> length ks <= 4 ->
+  LWF (new_node4 lf ks) /\ l_abs (new_node4 lf ks) = ks.
+Proof. exact LWF_new_node4. Qed.
+Print Assumptions C11_layout_new_node4.
+
+(* header.find: all four kinds, stale slots included (node4 ignores the size) *)
+Theorem C11_layout_find : forall l key, LWF l -> (key < 256)%N -> (l_find l key = true <-> In key (l_abs l)).
+Proof. exact l_find_iff. Qed.
+Print Assumptions C11_layout_find.
+
+(* header.findIndex: found iff present; index = number of smaller children (the insertion position)
+   for node4/16/48 (node4's unrolled scan over stale slots, node48's index hit or binary search);
+   node256 returns int(key) *)
+Theorem C11_layout_findIndex : forall l key, LWF l -> (key < 256)%N ->
+  (fst (l_findIndex l key) = true <-> In key (l_abs l)) /\
+  (l_kind l <> 256%N -> snd (l_findIndex l key) = length (filter (fun x => (x <? key)%N) (l_abs l))) /\
+  (l_kind l = 256%N -> snd (l_findIndex l key) = N.to_nat key).
+Proof. exact l_findIndex_iff. Qed.
+Print Assumptions C11_layout_findIndex.
+
+(* header.promote keeps the child list *)
+Theorem C11_layout_promote : forall l, LWF l -> l_kind l <> 256%N -> 1 <= l_size l ->
+  LWF (l_promote l) /\ l_abs (l_promote l) = l_abs l /\ l_leaf (l_promote l) = l_leaf l /\
+  l_kind (l_promote l) = (if l_kind l =? 4 then 16 else if l_kind l =? 16 then 48 else 256)%N.
+Proof. exact l_promote_correct. Qed.
+Print Assumptions C11_layout_promote.
+
+(* Txn.insert on the parent of a new child: findIndex, promotion exactly when size + 1 > cap, insert *)
+Theorem C11_layout_add : forall l k, LWF l -> (k < 256)%N -> memb k (l_abs l) = false ->
+  LWF (l_add l k) /\ l_abs (l_add l k) = ins k (l_abs l) /\ l_leaf (l_add l k) = l_leaf l /\
+  l_size (l_add l k) = S (l_size l) /\ l_kind (l_add l k) = add_kind (l_kind l) (l_size l).
+Proof. exact l_add_correct. Qed.
+Print Assumptions C11_layout_add.
+
+(* Txn.delete of a child that is a leaf: findIndex + removeChild; collapse into the last child when the
+   node has 2 children and no leaf, demotions at 49 / 17 / 5, otherwise remove in the (cloned) arrays *)
+Theorem C11_layout_del : forall l k, LWF l -> LOcc l -> (k < 256)%N -> memb k (l_abs l) = true ->
+  if (l_size l =? 2) && negb (l_leaf l)
+  then exists c, l_del l k = LCollapsed (Some c) /\ rem k (l_abs l) = [c]
+  else exists l', l_del l k = LNode l' /\ LWF l' /\ l_abs l' = rem k (l_abs l) /\ l_leaf l' = l_leaf l /\
+                  l_size l' = l_size l - 1 /\ l_kind l' = del_kind (l_kind l) (l_size l).
+Proof. exact l_del_correct. Qed.
+Print Assumptions C11_layout_del.
+
+(* the invariant (well-formed + occupancy bounds of the kinds) is inductive *)
+Theorem C11_layout_inv_preserved : forall l k, LInv l -> (k < 256)%N ->
+  LInv (l_add l k) /\ (forall l', l_del l k = LNode l' -> LInv l').
+Proof. exact (fun l k H Hk => conj (LInv_add l k H Hk) (fun l' => LInv_del l l' k H Hk)). Qed.
+Print Assumptions C11_layout_inv_preserved.
+
+(* closed world: every root reachable from the empty tree by Insert/Delete of the empty key and of
+   1-byte keys (the trees of the `layout` engine) is well-formed and within the occupancy bounds, and
+   (leaf present, child keys) evolves like a flag and a sorted set *)
+Theorem C11_layout_root_history : forall ops r, RInv r -> Forall rop_ok ops ->
+  RInv (fold_left r_step ops r) /\ r_abs (fold_left r_step ops r) = fold_left s_step ops (r_abs r).
+Proof. exact r_history. Qed.
+Print Assumptions C11_layout_root_history.
+
+(* link to Part/Model.v: the child-adding branch of modify_node and remove_child compute the same
+   (child key list, kind tag) as the layout model *)
+Theorem C11_layout_link_add : forall c md fk v s kd t p w lf ch b rest key l,
+  LWF l -> (b < 256)%N ->
+  l_kind l = kd -> l_abs l = ch_keys ch -> l_leaf l = opt_some lf ->
+  memb b (l_abs l) = false ->
+  strip p key = Some (b :: rest) ->
+  exists t2 w2 nl,
+    m_node (modify_node c md fk v s (Inner kd t p w lf ch) key)
+      = Inner (l_kind (l_add l b)) t2 p w2 lf (ch_insert b nl ch) /\
+    ch_keys (ch_insert b nl ch) = l_abs (l_add l b) /\
+    l_leaf (l_add l b) = opt_some lf.
+Proof. exact link_add. Qed.
+Print Assumptions C11_layout_link_add.
+
+Theorem C11_layout_link_del : forall c s kd t p w lf ch b l,
+  LWF l -> LOcc l -> (b < 256)%N ->
+  l_kind l = kd -> l_abs l = ch_keys ch -> l_leaf l = opt_some lf ->
+  memb b (l_abs l) = true ->
+  match l_del l b with
+  | LNode l' =>
+    exists t' w' s' ip,
+      remove_child c s kd t p w lf ch b = (Inner (l_kind l') t' p w' lf (ch_remove b ch), s', ip) /\
+      ch_keys (ch_remove b ch) = l_abs l' /\ l_leaf l' = opt_some lf
+  | LCollapsed (Some x) =>
+    exists xn, ch_find x ch = Some xn /\ remove_child c s kd t p w lf ch b = (merge_child p xn, record w s, false)
+  | LCollapsed None => False
+  end.
+Proof. exact link_del. Qed.
+Print Assumptions C11_layout_link_del.
+
+(* seeded-style variants refuted by witnesses *)
+Theorem C11_layout_remove_noclear_refuted : exists l idx key,
+  LInv l /\ idx < l_size l /\
+  l_find (l_remove_noclear l idx) key = true /\ ~ In key (l_abs (l_remove_noclear l idx)).
+Proof. exact remove_noclear_refuted. Qed.
+Print Assumptions C11_layout_remove_noclear_refuted.
+
+Theorem C11_layout_remove48_noindex_refuted : exists l idx key,
+  LInv l /\ l_kind l = 48%N /\ l_findIndex l key = (true, idx) /\
+  l_find (l_remove48_noindex l idx) key = true /\ ~ In key (l_abs (l_remove48_noindex l idx)).
+Proof. exact remove48_noindex_refuted. Qed.
+Print Assumptions C11_layout_remove48_noindex_refuted.
+
+(* hypotheses are satisfiable: a node48 with 18 children reached by 18 adds from the empty node4
+   (two promotions) satisfies the invariant, and deleting from it is the non-collapse case *)
+Example C11_layout_nonvacuous :
+  LInv node48_0_17 /\ l_kind node48_0_17 = 48%N /\ l_abs node48_0_17 = map N.of_nat (seq 0 18) /\
+  memb 7%N (l_abs node48_0_17) = true /\ memb 200%N (l_abs node48_0_17) = false /\
+  (l_size node48_0_17 =? 2) && negb (l_leaf node48_0_17) = false.
+Proof.
+  split; [apply LInv_fold; [exact LInv_empty | apply bytes_seq; lia] |].
+  vm_compute. repeat split; reflexivity.
+Qed.
